@@ -11,12 +11,14 @@ class VFS:
     def __init__(self) -> None:
         self.files: dict[str, Any] = {}
         self.opens: list[dict[str, Any]] = []
-        self.clock = 1_700_000_000_000_000_000            # virtual time in ns: every write moves it on
         self.mtimes: dict[str, int] = {}
 
+    CLOCK = [1_700_000_000_000_000_000]                   # virtual time in ns, one clock for the whole analysis: every
+                                                          # write moves it on, so no two writes share a modification time
+
     def touch(self, path: str) -> None:
-        self.clock += 1_000_000_000
-        self.mtimes[path] = self.clock
+        VFS.CLOCK[0] += 1_000_000_007
+        self.mtimes[path] = VFS.CLOCK[0]
 
     def put(self, path: str, content: Any) -> None:
         """Another program replaces the file (content and modification time change)."""
@@ -28,7 +30,9 @@ class VFS:
             raise AbsRaise(f"FileNotFoundError: [Errno 2] No such file or directory: {path!r}")
         data = self.files[path]
         size = len(data.encode("utf8")) if isinstance(data, str) else len(data)
-        return StatResult(self.mtimes.get(path, 1_700_000_000_000_000_000), size, abs(hash(path)) % 10**9)
+        if path not in self.mtimes:
+            self.touch(path)                               # a file put there directly: it was written at some time of its own
+        return StatResult(self.mtimes[path], size, sum(map(ord, path)) % 10**9)
 
 
 class StatResult(Native):
